@@ -79,14 +79,16 @@ func checkDefs() map[string]CheckDef {
 			each("H_resume", l(44, 45), l(44, 45, 52, 53, 55), l(3), l(-1)),
 			each("H_resume", l(40, 44, 45), l(13), l(6), l(-1)),
 			each("H_resume", l(40, 45), l(14), l(5), l(-1)),
-			each("H_chain", l(40, 41), l(13), l(7)), each("H_chainw", l(40, 41, 44), l(1, 3, 9, 29, 31), l(3))),
+			each("H_chain", l(40, 41), l(13), l(7)), each("H_chainw", l(40, 41, 44), l(1, 3, 9, 29, 31), l(3)),
+			each("H_chain_at", l(40), l(51, 56), l(3), l(5, 300)), each("H_chain_at", l(40), l(13), l(5), l(1))),
 		cat(each("H_resume", idsMsg, tplMsgHdr, l(6), l(-1)),
 			each("H_resume", l(40, 41, 44, 45), tplBoundary, l(5), l(-1)),
 			each("H_resume", idsMsgCaps, l(3, 4, 11, 12), l(5), l(-1)),
 			each("H_resume", l(40, 44, 45, 46), l(13), l(8), l(-1)),
 			each("H_chain", l(40, 41, 44), l(13), l(6, 7)), each("H_chain", l(40), l(9), l(3)),
+			each("H_chain_at", l(40), l(51, 56), l(4), l(3)), each("H_chain_at", l(41, 44), l(1, 9, 31), l(3), l(2)),
 			each("H_resume", l(40), l(0), l(14), l(-1))),
-		"ParseSIPMsg resumed vs. one-shot. Resumption lemma (one intermediate cut, EVERY cut position symbolic, complete object state compared while suspended => every chunk schedule by induction) on message templates with one symbolic window W: 11 header kinds (From, To, Contact, PAI, CSeq, Call-ID, Content-Length+body, Expires, generic, reply, 3-header) W=4 (6) x flags 0..3; 9 boundary templates (symbolic header name, inside a folded value, end of first line, end of block, Via+Contact, reply tag, 2nd Contact / PAI value, Route) W=3 (5); 13 interior templates (inside a quoted display name, after a parameter value, parameter name, between CSeq number and method, URI inside <>, method, status code, q value, star contact, end of a reply line) W=3; limit numbers (Content-Length / CSeq / Expires whose last 2 digits are symbolic around 2^24 / 2^32); capacities default,(1,1),(0,0),(2,2); fully symbolic header block of 5-6 (8) bytes after `A B C CRLF`; all-schedules chains: full 14-byte message, and cuts anywhere in/after the window of 5 templates W=3",
+		"ParseSIPMsg resumed vs. one-shot. Resumption lemma (one intermediate cut, EVERY cut position symbolic, complete object state compared while suspended => every chunk schedule by induction) on message templates with one symbolic window W: 11 header kinds (From, To, Contact, PAI, CSeq, Call-ID, Content-Length+body, Expires, generic, reply, 3-header) W=4 (6) x flags 0..3; 9 boundary templates (symbolic header name, inside a folded value, end of first line, end of block, Via+Contact, reply tag, 2nd Contact / PAI value, Route) W=3 (5); 13 interior templates (inside a quoted display name, after a parameter value, parameter name, between CSeq number and method, URI inside <>, method, status code, q value, star contact, end of a reply line) W=3; limit numbers (Content-Length / CSeq / Expires whose last 2 digits are symbolic around 2^24 / 2^32); capacities default,(1,1),(0,0),(2,2); fully symbolic header block of 5-6 (8) bytes after `A B C CRLF`; all-schedules chains: full 14-byte message, and cuts anywhere in/after the window of 5 templates W=3; all schedules of two reply templates placed at offset 5 / 300",
 		"buffers beyond the windows; flags changing between calls; SIPMsgNoMoreDataF (documented end-of-input mode); > 65535 bytes")
 
 	add("C02",
@@ -101,6 +103,7 @@ func checkDefs() map[string]CheckDef {
 			each("H_resume", l(5), l(23, 24, 25), l(5), l(-1)),
 			each("H_resume", l(5), l(26, 27, 57), l(4), l(-1)),
 			each("H_resume_at", l(0, 2, 6, 11, 23, 30), l(6), l(1, 2)),
+			each("H_chain_at", l(5), l(24, 25), l(4), l(3, 300)), each("H_chain_at", l(5, 11), l(0), l(6), l(2)),
 			each("H_chain", l(0, 1, 2, 6, 8, 11, 23, 30, 34), l(0), l(5)),
 			each("H_resume", l(8, 16, 19), l(18, 19), l(4), l(-1)),
 			each("H_resume", l(12, 14), l(40, 41, 42, 43), l(2), l(-1))),
@@ -113,7 +116,7 @@ func checkDefs() map[string]CheckDef {
 			each("H_resume", idsURILists, l(0), l(9), l(-1)),
 			each("H_resume", l(5), l(0), l(15), l(-1)),
 			each("H_chain", l(0, 1, 2, 6, 8, 11, 13, 16, 23, 30, 34), l(0), l(7))),
-		"every exported incremental sub-parser: resumption lemma with every cut position on fully symbolic buffers: CSeq/Call-ID/UInt/CLen/Expires/SkipQuoted 10 (13) bytes, name-addr (From, To, Contact, PAI, Route, one-contact, one-PAI) 8 (10), header line 8 (10), header block caps {2,1,0} 7 (9), contact/PAI lists 7 (9), token param (6 flag sets) 8 (10), URI param/header lists caps {2,1,0} 7 (9), name-addr interior templates, first line on templates; start offsets 1 and 2; all-schedules chain at 5 (7) bytes",
+		"every exported incremental sub-parser: resumption lemma with every cut position on fully symbolic buffers: CSeq/Call-ID/UInt/CLen/Expires/SkipQuoted 10 (13) bytes, name-addr (From, To, Contact, PAI, Route, one-contact, one-PAI) 8 (10), header line 8 (10), header block caps {2,1,0} 7 (9), contact/PAI lists 7 (9), token param (6 flag sets) 8 (10), URI param/header lists caps {2,1,0} 7 (9), name-addr interior templates, first line on templates; start offsets 1 and 2; all-schedules chain at 5 (7) bytes; all schedules of first-line templates placed at offsets 3 / 300",
 		"POptInputEndF (documented end-of-input mode) is exercised separately in C17; longer inputs")
 
 	add("C03",
@@ -181,10 +184,12 @@ func checkDefs() map[string]CheckDef {
 	add("C06",
 		cat(each("H_C06_clen", seq(1, 3), seq(0, 3)), each("H_C06_clen", l(7, 8, 9, 10), l(0, 1)),
 			each("H_C06_noclen", seq(0, 3)),
+			each("H_C06_clen_at", l(1, 2), seq(0, 3), l(1, 300)), each("H_C06_clen_at", l(3, 8), l(2), l(2, 70)),
 			each("H_C06_pipe", l(2, 3), l(2), l(0, 2)), each("H_C06_pipe3", l(2, 3), l(0, 1, 300))),
 		cat(each("H_C06_clen", seq(1, 3), seq(4, 8)), each("H_C06_clen", l(4, 5, 6, 11, 12), l(0, 2)),
+			each("H_C06_clen_at", seq(1, 3), seq(0, 8), l(3, 47, 4096)),
 			each("H_C06_pipe", l(4), l(3), l(0, 1, 3))),
-		"skeleton request with Content-Length of 1-10 (12) symbolic digits and 0-3 (8) body bytes, all 8 flag combinations symbolic; no-Content-Length variants; two and three pipelined messages (request with body, reply, request) with symbolic header-value windows, the first at offset 0, 1, 300",
+		"skeleton request with Content-Length of 1-10 (12) symbolic digits and 0-3 (8) body bytes, all 8 flag combinations symbolic, the message at offset 0 and at offsets 1, 2, 70, 300 (3, 47, 4096); no-Content-Length variants; two and three pipelined messages (request with body, reply, request) with symbolic header-value windows, the first at offset 0, 1, 300",
 		"header blocks other than the skeleton; more than two pipelined messages")
 
 	add("C07",
@@ -194,9 +199,11 @@ func checkDefs() map[string]CheckDef {
 		"blocks longer than the bound; more than 6 headers per block; header-specific value rewriting (C05/C09)")
 
 	add("C08",
-		cat(each("H_C08", l(0), l(14, 15)), each("H_C08", l(23), l(9)), each("H_C08", l(24, 25), l(6)), each("H_C08", l(26, 27), l(4))),
-		cat(each("H_C08", l(0), l(16, 17, 18, 19, 20)), each("H_C08", l(24, 25), l(8, 10)), each("H_C08", l(23), l(10))),
-		"ParseFLine vs. a non-incremental reference on fully symbolic lines of 14-15 (20) bytes and templates: 9 symbolic method bytes, symbolic status/reason, symbolic URI/version",
+		cat(each("H_C08", l(0), l(14, 15)), each("H_C08", l(23), l(9)), each("H_C08", l(24, 25), l(6)), each("H_C08", l(26, 27), l(4)),
+			each("H_C08_at", l(24, 25), l(6), l(3, 300)), each("H_C08_at", l(23), l(6), l(1)), each("H_C08_at", l(26, 27), l(4), l(20)), each("H_C08_at", l(0), l(14), l(1))),
+		cat(each("H_C08", l(0), l(16, 17, 18, 19, 20)), each("H_C08", l(24, 25), l(8, 10)), each("H_C08", l(23), l(10)),
+			each("H_C08_at", l(24, 25), l(8), l(1, 14, 4096)), each("H_C08_at", l(0), l(16), l(2, 13))),
+		"ParseFLine vs. a non-incremental reference on fully symbolic lines of 14-15 (20) bytes and templates: 9 symbolic method bytes, symbolic status/reason, symbolic URI/version; the same with the line at a non-zero offset and delivered in two pieces (every cut)",
 		"lines longer than the bound")
 
 	add("C09",
@@ -212,10 +219,11 @@ func checkDefs() map[string]CheckDef {
 
 	add("C10",
 		cat(each("H_C10_cseq", seq(1, 21)), each("H_C10_uint", l(0, 1), seq(1, 21)), each("H_C10_status"),
-			each("H_C10_cexp", seq(1, 24)), each("H_C10_q", seq(0, 5)), each("H_C10_port", l(0, 1, 2, 3, 4, 5), seq(1, 8)), each("H_C10_port", l(0, 4), seq(9, 22))),
-		cat(each("H_C10_cseq", seq(22, 40)), each("H_C10_uint", l(0, 1), seq(22, 40)), each("H_C10_cexp", seq(25, 32)), each("H_C10_port", l(0, 1, 3), seq(23, 40))),
-		"every numeric position with all digit strings of length 1..21/24 (40; Contact expires 32 - the 33..40 digit obligations time out in z3 and are not claimed): CSeq, Expires, Content-Length, reply status, Contact expires (saturation), q (6 shapes), URI port (6 carriers incl. symbolic passwords before the host); reference = exact 64-bit decimal value of the last 19 digits + leading-zero test",
-		"digit strings longer than 40; chunked numeric parsing is covered by C02")
+			each("H_C10_cexp", seq(1, 24)), each("H_C10_q", seq(0, 5)), each("H_C10_port", l(0, 1, 2, 3, 4, 5), seq(1, 8)), each("H_C10_port", l(0, 4), seq(9, 22)),
+			each("H_C10_hdr", l(0, 1, 2), seq(1, 12))),
+		cat(each("H_C10_hdr", l(0, 1, 2), seq(13, 24)), each("H_C10_cseq", seq(22, 40)), each("H_C10_uint", l(0), seq(22, 36)), each("H_C10_uint", l(1), seq(22, 40)), each("H_C10_cexp", seq(25, 32)), each("H_C10_port", l(0, 1, 3), seq(23, 40))),
+		"every numeric position with all digit strings of length 1..21/24 (40; Expires 36 and Contact expires 32 - the obligations for longer strings time out in z3 and are not claimed): CSeq, Expires, Content-Length, reply status, Contact expires (saturation), q (6 shapes), URI port (6 carriers incl. symbolic passwords before the host); Expires / Content-Length / CSeq header lines of 1..12 (24) digits through ParseHdrLine delivered in two pieces (every cut); reference = exact 64-bit decimal value of the last 19 digits + leading-zero test",
+		"digit strings longer than 40; chunk schedules of more than two pieces are covered by C02")
 
 	add("C11",
 		cat(each("H_offset", l(0, 1, 2, 3, 6, 8, 11, 12, 13, 16, 19, 22, 23, 25, 30, 34), l(0), l(5), l(1, 3, 255, 256, 65530)),
@@ -267,16 +275,17 @@ func checkDefs() map[string]CheckDef {
 		"tel: texts containing '@' (not a tel number); longer URIs")
 
 	add("C15",
-		cat(each("H_C15_reflexive", seq(1, 6)), each("H_C15_symmetric", l(1, 2, 3), l(2, 3)), each("H_C15_entry", l(1, 2, 3), l(1, 2, 3)),
+		cat(each("H_C15_reflexive", seq(1, 6)), each("H_C15_symmetric", l(1, 2, 3), l(2, 3)), each("H_C15_entry", l(1, 2, 3), l(1, 2, 3)), each("H_C15_entry_reuse", l(1, 3), l(2, 3)),
 			each("H_C15_case", l(1), l(2)), each("H_C15_presence", seq(0, 3)), each("H_C15_order", l(0, 1, 2))),
-		cat(each("H_C15_reflexive", l(7, 8, 9, 10)), each("H_C15_symmetric", l(4, 5), l(3, 4)), each("H_C15_symmetric", l(5), l(5)), each("H_C15_entry", l(4, 5), l(3, 4, 5)), each("H_C15_case", l(2), l(3))),
-		"URIs = sip: (any case) + up to 6 (10) symbolic bytes each, all 64 skip-flag sets symbolic; precondition (lists parse, no duplicate names) decided with the library's own list parsers; reflexive, symmetric, flag monotonicity, entry-point agreement incl. handed-back URIs, case insensitivity on a template, two parameters / headers in opposite order with independent symbolic values (equal iff values agree), presence rule for user/ttl/method/maddr",
+		cat(each("H_C15_reflexive", l(7, 8, 9, 10)), each("H_C15_symmetric", l(4, 5), l(3, 4)), each("H_C15_symmetric", l(5), l(5)), each("H_C15_entry", l(4, 5), l(3, 4, 5)), each("H_C15_entry_reuse", l(4, 5), l(4, 5)), each("H_C15_case", l(2), l(3))),
+		"URIs = sip: (any case) + up to 6 (10) symbolic bytes each, all 64 skip-flag sets symbolic; precondition (lists parse, no duplicate names) decided with the library's own list parsers; reflexive, symmetric, flag monotonicity, entry-point agreement incl. handed-back URIs (fresh and re-used hand-back structures), case insensitivity on a template, two parameters / headers in opposite order with independent symbolic values (equal iff values agree), presence rule for user/ttl/method/maddr",
 		"longer URIs; more than 6 parameters")
 
 	add("C16",
-		cat(each("H_C16_hdr", seq(0, 20)), each("H_C16_mth", seq(0, 10)), each("H_C16_round"), each("H_C16_str"), each("H_C16_parse", seq(1, 8), l(0, 1)), each("H_C16_parse", l(12, 14), l(0))),
-		cat(each("H_C16_hdr", seq(21, 24)), each("H_C16_mth", l(11, 12)), each("H_C16_parse", l(19), l(0))),
-		"GetHdrType for every byte string of length 0..20 (24) and GetMethodNo for length 0..10 (12) vs. a linear scan of a literal copy of the table; Name()/String() total; round trip; ParseHdrLine assigns the same classification",
+		cat(each("H_C16_hdr", seq(0, 20)), each("H_C16_mth", seq(0, 10)), each("H_C16_round"), each("H_C16_str"), each("H_C16_parse", seq(1, 8), l(0, 1)), each("H_C16_parse", l(12, 14), l(0)),
+			each("H_C16_parse_at", l(2, 4, 7), l(0, 1, 2), l(1, 9)), each("H_C16_parse", l(3, 6), l(2))),
+		cat(each("H_C16_parse_at", l(1, 3, 5, 6, 8, 12), l(1, 2), l(3, 4096)), each("H_C16_hdr", seq(21, 24)), each("H_C16_mth", l(11, 12)), each("H_C16_parse", l(19), l(0))),
+		"GetHdrType for every byte string of length 0..20 (24) and GetMethodNo for length 0..10 (12) vs. a linear scan of a literal copy of the table; Name()/String() total; round trip; ParseHdrLine assigns the same classification, also with white space before the colon and with the line at a non-zero offset",
 		"names longer than 24 bytes (only the length test can matter there)")
 
 	add("C17",
